@@ -163,7 +163,7 @@ func DecodeZigZag(x uint64) int64 {
 
 func (BinaryDecoder) DecodeBool(b []byte) (bool, int) {
 	v, n := ConsumeVarint(b)
-	return int8(v) == 1, n
+	return v != 0, n // any non-zero varint is true
 }
 
 func (BinaryDecoder) DecodeByte(b []byte) byte {
